@@ -9,6 +9,28 @@ enum {
 	S = 2<<8
 };
 
+#ifdef CPROC_VERIF
+/* H2: type of a folded operand/result as kind ('f' float, 'b' _Bool, 'i' integer, 'p' other), size, signedness */
+static int
+vkind(struct type *t)
+{
+	return t->prop & PROPFLOAT ? 'f' : t->kind == TYPEBOOL ? 'b' : t->prop & PROPINT ? 'i' : 'p';
+}
+
+static int
+vsigned(struct type *t)
+{
+	return t->prop & PROPINT && t->u.basic.issigned;
+}
+
+static void
+vfold(const char *fn, const char *op, struct type *lt, struct type *t, unsigned long long l, unsigned long long r, unsigned long long res)
+{
+	vtrace("{\"e\":\"fold\",\"fn\":\"%s\",\"op\":\"%s\",\"lkind\":\"%c\",\"lsize\":%d,\"lsigned\":%d,\"kind\":\"%c\",\"size\":%d,\"signed\":%d,\"l\":\"%016llx\",\"r\":\"%016llx\",\"res\":\"%016llx\"}",
+		fn, op, vkind(lt), (int)lt->size, vsigned(lt), vkind(t), (int)t->size, vsigned(t), l, r, res);
+}
+#endif
+
 static void
 cast(struct expr *expr)
 {
@@ -31,6 +53,11 @@ cast(struct expr *expr)
 static void
 unary(struct expr *expr, enum tokenkind op, struct expr *l)
 {
+#ifdef CPROC_VERIF
+	unsigned long long vl = l->u.constant.u;
+	struct type *vlt = l->type;
+	enum tokenkind vop = op;
+#endif
 	expr->kind = EXPRCONST;
 	if (l->type->prop & PROPFLOAT)
 		op |= F;
@@ -41,11 +68,20 @@ unary(struct expr *expr, enum tokenkind op, struct expr *l)
 		fatal("internal error; unknown unary expression");
 	}
 	cast(expr);
+#ifdef CPROC_VERIF
+	vfold("unary", tokstr[vop], vlt, expr->type, vl, 0, expr->u.constant.u);
+#endif
 }
 
 static void
 binary(struct expr *expr, enum tokenkind op, struct expr *l, struct expr *r)
 {
+#ifdef CPROC_VERIF
+	/* expr may alias l or r (re-association of P + C1 +- C2): capture the operands first */
+	unsigned long long vl = l->u.constant.u, vr = r->u.constant.u;
+	struct type *vlt = l->type;
+	enum tokenkind vop = op;
+#endif
 	expr->kind = EXPRCONST;
 	if (l->type->prop & PROPFLOAT)
 		op |= F;
@@ -98,6 +134,9 @@ binary(struct expr *expr, enum tokenkind op, struct expr *l, struct expr *r)
 		fatal("internal error; unknown binary expression");
 	}
 	cast(expr);
+#ifdef CPROC_VERIF
+	vfold("binary", tokstr[vop], vlt, expr->type, vl, vr, expr->u.constant.u);
+#endif
 }
 
 struct expr *
@@ -173,6 +212,9 @@ eval(struct expr *expr)
 				expr->u.constant = l->u.constant;
 			}
 			cast(expr);
+#ifdef CPROC_VERIF
+			vfold("cast", "cast", l->type, t, l->u.constant.u, 0, expr->u.constant.u);
+#endif
 		} else if (l->type->kind == TYPEPOINTER) {
 			/*
 			A cast from a pointer to integer is not a valid constant
